@@ -29,7 +29,8 @@ def main():
               "pre/post hooks on top object and sub-object, unsatisfiable calls; %d seeded fault histories of 2..5 faults" % (25 if t == "quick" else 2500))
     specs = gen.c16_programs(t, seed())
     chk.extra["rule"] = "one evaluation = one operation after which state is inspected / one later call decided; distinct = distinct (history, position)"
-    e1run.run_specs(chk, specs, KINDS, opts={"check_idle": True})
+    from vf import hooks
+    e1run.run_specs(chk, specs, KINDS + ("soft_guard", "soft_missing", "soft_priority", "soft_outcome"), opts={"check_idle": True, "hooks": [hooks.soft_hook]})
     chk.finish()
 
 
